@@ -232,6 +232,50 @@ def run_override_case(omit_keys):
             pass
 
 
+def run_overwrite_case():
+    """analyse, overwrite a marked template with an unflagged body (need_pre_expand=False), analyse again: the stored
+    flag of the overwritten page is the one given to add_page, earlier marks of OTHER pages are kept"""
+    global evaluations
+    evaluations += 1
+    with quiet_stdout():
+        ctx = Wtp(quiet=True)
+    try:
+        def classify(c, page):
+            b = page.body or ""
+            return {nm for nm in ("A", "B", "C") if "{{%s}}" % nm in b}, "==h==" in b
+        ctx.add_page("Template:A", 10, "x ==h==")
+        ctx.add_page("Template:B", 10, "{{A}} y")
+        ctx.add_page("Template:C", 10, "plain")
+        with quiet_stdout():
+            ctx.analyze_templates(classify)
+        first = {p.title for p in ctx.get_all_pages([10]) if p.need_pre_expand}
+        ctx.add_page("Template:A", 10, "now plain", need_pre_expand=False)
+        ctx.add_page("Template:C", 10, "{{A}} z", need_pre_expand=False)
+        signal.alarm(10)
+        try:
+            with quiet_stdout():
+                ctx.analyze_templates(classify)
+        except Timeout:
+            fail("core:Wtp.analyze_templates#terminates", "re-analysis after overwrite did not return in 10 s", {}, "timeout")
+            finish()
+        finally:
+            signal.alarm(0)
+        got = {p.title for p in ctx.get_all_pages([10]) if p.need_pre_expand}
+        want = {"Template:B"}          # B keeps its earlier mark; A was overwritten unmarked and unflagged; C includes only A
+        if first != {"Template:A", "Template:B"} or got != want:
+            fail("core:Wtp.analyze_templates#marks-exactly-the-least-closed-set[overwrite-then-re-analysis]",
+                 f"first analysis marked {sorted(first)}; after overwriting A and C and analysing again: marked {sorted(got)} "
+                 f"want {sorted(want)}", {"history": "A flagged, B includes A; analyse; A := plain, C := includes A; analyse"},
+                 "missing" if want - got else "extra")
+        distinct.add(("overwrite", 0))
+    finally:
+        try:
+            ctx.close_db_conn()
+        except Exception:
+            pass
+
+
+run_overwrite_case()
 run_override_case(False)
 run_override_case(True)
 # names whose stored form is not NFC (decomposed accent, Angstrom sign): looked up exactly as stored
